@@ -6,6 +6,7 @@ import Qfx.Lemmas.CodecDictSegs
 import Qfx.Lemmas.CodecDictStack
 import Qfx.Lemmas.CodecDictNest
 import Qfx.Lemmas.CodecDictItems
+import Qfx.Lemmas.CodecRoundDict
 namespace Qfx
 open Qfx.Spec
 
@@ -360,5 +361,32 @@ theorem exItemsN : ItemsN exD5 exFs5 none
   refine .plainExit (exWire _ _ (by simp [SOH]) (by simp [inInt64])) (by decide) (by decide) (by decide) (by decide)
     ⟨by rfl, fun C' hb => absurd hb (ex_below_78 _)⟩
     (Or.inr (Or.inl (by simp [isTrailerField, exD5, TagValue.init]))) (.nil _)
+
+
+/-! ### witnesses for the hypotheses of the end-to-end round trip (`C13_roundtrip_dict`): template ↔ dictionary, conforming API entries -/
+
+/-- the template of the three-level example dictionary tree `exC3` -/
+def exTmpl3 : List Item := [.elem 448, .elem 447, .group 802 [.elem 523, .elem 803, .group 2376 [.elem 2377]]]
+
+theorem exTmplDict : TmplDict exTmpl3 exC3 :=
+  .elem (by rfl) (by rfl) (.elem (by rfl) (by rfl) (.group (CN := exCN3) (by rfl)
+    (.elem (by rfl) (by rfl) (.elem (by rfl) (by rfl) (.group (CN := exCNN) (by rfl) (.elem (by rfl) (by rfl) (.nil _)) (.nil _))))
+    (.nil _)))
+
+/-- two entries set through the API, the first with a nested group that has a nested group -/
+def exEntries : List (List GFld) :=
+  [[.fld 448 [97], .grp 802 [.elem 523, .elem 803, .group 2376 [.elem 2377]] [[.fld 523 [120], .grp 2376 [.elem 2377] [[.fld 2377 [113]]]]]],
+   [.fld 447 [68], .fld 448 [98]]]
+
+theorem exEntriesOK : entriesOK exTmpl3 exEntries = true := by
+  simp [entriesOK, entryOK, tmplEq, exTmpl3, exEntries, findItem, Item.tag, GFld.tag]
+
+theorem exSmall : SmallEs exEntries :=
+  .cons (.fld (.grp (by decide) (.cons (.fld (.grp (by decide) (.cons (.fld .nil) .nil) .nil)) .nil) .nil))
+    (.cons (.fld (.fld .nil)) .nil)
+
+theorem exTmplNodup : (453 :: allTmplTags exTmpl3).Nodup := by
+  simp [allTmplTags, exTmpl3]
+
 
 end Qfx
